@@ -372,6 +372,13 @@ void explore17(Options const& o, std::vector<Shim*> const& shims, std::vector<Sh
         i64 got = 0, step = 0;
         int sg = guarded([&]{ got = s->fm_seq_compound(o1, o2, a, b, cc); step = s->fm_bin(EQ[o2], s->fm_bin(EQ[o1], a, b), cc); });
         ++n;
+        if( !sg && o1 < 2 && o2 < 2 )
+          {   // + and - are exact: the in-function history must also equal the value model (when no intermediate result is NaN)
+          i128 m1 = o1 == 0 ? static_cast<i128>(a) + b : static_cast<i128>(a) - b;
+          if( m1 >= FX_LOWEST && m1 <= FX_MAX && fx_finite(a) && fx_finite(b) && fx_finite(cc) )
+            { i128 m2 = o2 == 0 ? m1 + cc : m1 - cc; bool nan2 = m2 < FX_LOWEST || m2 > FX_MAX;
+              if( nan2 ? !fx_isnan(got) : got != static_cast<i64>(m2) ) lv.hit(c_seq, ob | (13ull << 52) | (ia << 20) | static_cast<u64>((o1 * 4 + o2) * 256 + n % 256), [=]{ return ex1(s, "x op1= b; x op2= c; in one function", std::string("op1=") + "+-*/"[o1] + " op2=" + "+-*/"[o2] + " vs exact model", {{"x",to_s(a)},{"b",to_s(b)},{"c",to_s(cc)}}, nan2 ? std::string("NaN") : to_s128(m2), to_s(got), "seq", {to_s(o1), to_s(o2), to_s(a), to_s(b), to_s(cc)}); }); }
+          }
         if( sg || got != step ) lv.hit(c_seq, ob | (14ull << 52) | (ia << 20) | static_cast<u64>((o1 * 4 + o2) * 256 + n % 256), [=]{ return ex1(s, "x op1= b; x op2= c; in one function", std::string("op1=") + "+-*/"[o1] + " op2=" + "+-*/"[o2], {{"x",to_s(a)},{"b",to_s(b)},{"c",to_s(cc)}}, to_s(step) + " (step by step)", sg ? "signal " + std::to_string(sg) : to_s(got), "seq", {to_s(o1), to_s(o2), to_s(a), to_s(b), to_s(cc)}); });
         }
       std::lock_guard<std::mutex> g(m); tot += n;
@@ -403,7 +410,10 @@ void replay17(Options const& o, Shim* s, Recorder& rec)
     const int EQ[4] = { B_ADDEQ, B_SUBEQ, B_MULEQ, B_DIVEQ };
     int o1 = static_cast<int>(parse_i64(o.rin.at(0))), o2 = static_cast<int>(parse_i64(o.rin.at(1))); i64 a = parse_i64(o.rin.at(2)), b = parse_i64(o.rin.at(3)), cc = parse_i64(o.rin.at(4));
     i64 got = 0, step = 0; int sg = guarded([&]{ got = s->fm_seq_compound(o1, o2, a, b, cc); step = s->fm_bin(EQ[o2], s->fm_bin(EQ[o1], a, b), cc); });
-    if( sg || got != step ) rec.viol(rec.cls("C17.in_function_history_differs_from_stepwise"), 0, [&]{ return ex1(s, "x op1= b; x op2= c;", "", {{"x",to_s(a)},{"b",to_s(b)},{"c",to_s(cc)}}, to_s(step), to_s(got), o.rcase, o.rin); });
+    bool bad = sg || got != step;
+    if( !sg && o1 < 2 && o2 < 2 ) { i128 m1 = o1 == 0 ? static_cast<i128>(a) + b : static_cast<i128>(a) - b;
+      if( m1 >= FX_LOWEST && m1 <= FX_MAX && fx_finite(a) && fx_finite(b) && fx_finite(cc) ) { i128 m2 = o2 == 0 ? m1 + cc : m1 - cc; bool nan2 = m2 < FX_LOWEST || m2 > FX_MAX; if( nan2 ? !fx_isnan(got) : got != static_cast<i64>(m2) ) bad = true; } }
+    if( bad ) rec.viol(rec.cls("C17.in_function_history_differs_from_stepwise"), 0, [&]{ return ex1(s, "x op1= b; x op2= c;", "", {{"x",to_s(a)},{"b",to_s(b)},{"c",to_s(cc)}}, to_s(step) + " (step by step) / exact model", to_s(got), o.rcase, o.rin); });
     }
   else if( o.rcase == "law" ) c.laws(s, parse_i64(o.rin.at(0)), 0, d, true, true);
   else if( o.rcase == "triple" ) c.triple(s, parse_i64(o.rin.at(0)), parse_i64(o.rin.at(1)), parse_i64(o.rin.at(2)), 0, d);
